@@ -91,5 +91,5 @@ def default_plan(tier):
     if tier == "thorough":
         return [(f, "bfs", None) for f in FAMILIES] + [("sim", "sim", 6000)]
     # quick: small exhaustive families + seeded simulation of every family
-    return [("ws", "bfs", 2), ("attr", "bfs", 1), ("inl", "bfs", 2), ("cf", "bfs", None)] + \
+    return [("ws", "bfs", 2), ("attr", "bfs", 1), ("inl", "bfs", 2), ("cf", "bfs", None), ("call", "bfs", 3)] + \
            [(f, "sim", 700) for f in FAMILIES if f != "cf"] + [("sim", "sim", 1500)]
